@@ -19,11 +19,65 @@ from collections import deque
 from concurrent.futures import ThreadPoolExecutor
 from vlib import core, tlaval
 from vlib.core import MachineryError
+from checks import c05_probe
 
 TRACE_MOD = "VariantTrace"
 CFG_STRICT = "VariantTrace_strict.cfg"
 CFG_WEAK = "VariantTrace.cfg"
-TRACKED = (1, 2, 3)
+
+
+# ------------------------------------------------------------------ alternative sets and build flavours
+# An alternative SET fixes which of the four alternatives are lifetime-tracked payload types and which move
+# without throwing (constants TrackedAlts / NTMAlts of VariantLifetime.tla; -DC05_SET of the driver).
+SETS = {
+    "mixed": dict(cset=1, tracked=(1, 2, 3), ntm=(0, 1), weak="VariantTrace.cfg", strict="VariantTrace_strict.cfg",
+                  mc=("VariantImpl_mc.cfg", "VariantImpl_mc_thorough.cfg"), s2c=("VariantImpl_s2c.cfg", "VariantImpl_s2c_thorough.cfg"),
+                  what="<int, NT, TM, TM2>"),
+    "td": dict(cset=3, tracked=(0, 1, 2), ntm=(1, 3), weak="VariantTrace_td.cfg", strict="VariantTrace_td_strict.cfg",
+               mc=("VariantImpl_mc_td.cfg", "VariantImpl_mc_td_thorough.cfg"), s2c=("VariantImpl_s2c_td.cfg", "VariantImpl_s2c_td_thorough.cfg"),
+               what="<TD, NT, TM, int> (alternative 0 with a throwing default constructor)"),
+    "triv": dict(cset=2, tracked=(), ntm=(0, 1, 2, 3), weak="VariantTrace_triv.cfg", strict="VariantTrace_triv_strict.cfg",
+                 mc=("VariantImpl_mc_triv.cfg", "VariantImpl_mc_triv.cfg"), s2c=("VariantImpl_s2c_triv.cfg", "VariantImpl_s2c_triv.cfg"),
+                 what="<int, Tv1, Tv2, Tv3> (all trivially copyable and destructible)"),
+}
+# A build FLAVOUR is one way of compiling the driver.  "table": the header's code for compilers without C++14
+# constexpr (function-pointer-table visitation instead of the switch dispatcher, recursive find_index /
+# common_trait), selected by presenting __cpp_constexpr as its C++11 value.
+TABLE = ["-U__cpp_constexpr", "-D__cpp_constexpr=200704", "-Wno-builtin-macro-redefined"]
+FLAVOURS = {
+    "mixed": dict(set="mixed", flags=[], cxx=None, tiers=("quick", "thorough")),
+    "td": dict(set="td", flags=[], cxx=None, tiers=("quick", "thorough")),
+    "triv": dict(set="triv", flags=[], cxx=None, tiers=("quick", "thorough")),
+    "mixed-table": dict(set="mixed", flags=TABLE, cxx=None, tiers=("quick", "thorough")),
+    "td-table": dict(set="td", flags=TABLE, cxx=None, tiers=("thorough",)),
+    "triv-table": dict(set="triv", flags=TABLE, cxx=None, tiers=("thorough",)),
+    "mixed-clang": dict(set="mixed", flags=[], cxx="clang++", tiers=("thorough",)),
+    "td-clang": dict(set="td", flags=[], cxx="clang++", tiers=("thorough",)),
+    "triv-clang": dict(set="triv", flags=[], cxx="clang++", tiers=("thorough",)),
+    "mixed-O2": dict(set="mixed", flags=["-O2"], cxx=None, tiers=("thorough",), tour=False),
+    "mixed-O0": dict(set="mixed", flags=["-O0"], cxx=None, tiers=("thorough",), tour=False),
+}
+DRIVER_SRC = os.path.join(core.HARNESS, "variant", "driver.cpp")
+
+
+def build_flavour(ctx, fl):
+    f = FLAVOURS[fl]
+    out = os.path.join(ctx.work, "variant_driver_" + fl)
+    if not os.path.exists(out):
+        core.build(ctx, DRIVER_SRC, out, ["-DC05_SET=%d" % SETS[f["set"]]["cset"]] + f["flags"], True, f["cxx"])
+    return out
+
+
+def reset_line(fl):
+    return {"op": "Reset", "flavour": fl}
+
+
+def flavour_of(lines):
+    for l in lines:
+        d = json.loads(l) if isinstance(l, str) else l
+        if d.get("op") == "Reset":
+            return d.get("flavour", "mixed")
+    return "mixed"
 
 
 # ------------------------------------------------------------------ scripts
@@ -36,17 +90,78 @@ def begin(c, a, fuse=0, **extra):
 def write_script(path, lines):
     with open(path, "w") as f:
         for l in lines:
-            f.write(json.dumps(l, separators=(",", ":")) + "\n")
+            f.write((l if isinstance(l, str) else json.dumps(l, separators=(",", ":"))) + "\n")
+
+
+CRASH_RESTARTS = 6
+
+
+def _tail_state(path, start):
+    """(number of Reset lines, last complete line, bytes to keep) of the trace written from byte offset start."""
+    with open(path, "rb") as f:
+        f.seek(start)
+        data = f.read()
+    keep = len(data) if data.endswith(b"\n") or not data else data.rfind(b"\n") + 1
+    lines = [l for l in data[:keep].split(b"\n") if l.strip()]
+    nres = sum(1 for l in lines if l.startswith(b'{"op":"Reset"'))
+    return nres, (lines[-1].decode(errors="replace") if lines else ""), start + keep
 
 
 def run_script(ctx, drv, script_path, trace_path):
+    """Run the driver on a script.  The driver never ends a run abnormally without the trace saying so: if it
+    crashed (sanitizer report, signal, std::terminate, per-call CPU limit, or - seen from here - a non-zero exit
+    status or the wall-clock limit) the trace is closed with a Crash event, which no action of the spec matches,
+    and the driver is started again on the executions after the one that crashed."""
     env = dict(os.environ)
     env.update(core.ASAN_ENV)
-    with open(script_path) as fin, open(trace_path, "w") as fout:
-        p = subprocess.run([drv], stdin=fin, stdout=fout, stderr=subprocess.PIPE, env=env, timeout=1800)
-    if p.returncode == 3:
-        raise MachineryError("harness rejected script %s: %s" % (script_path, p.stderr.decode(errors="replace")[-500:]))
-    return p.returncode, p.stderr.decode(errors="replace")
+    with open(script_path) as f:
+        script = [l for l in f.read().split("\n") if l.strip()]
+    open(trace_path, "w").close()
+    pos, crashes, errs = 0, 0, []
+    while pos < len(script):
+        chunk = script[pos:]
+        offset = os.path.getsize(trace_path)
+        with open(trace_path, "ab") as fout:
+            p = subprocess.Popen([drv], stdin=subprocess.PIPE, stdout=fout, stderr=subprocess.PIPE, env=env)
+            try:
+                _, err = p.communicate(("\n".join(chunk) + "\n").encode(), timeout=1800)
+                rc = p.returncode
+            except subprocess.TimeoutExpired:
+                p.kill()
+                _, err = p.communicate()
+                rc = "wall-clock limit"
+        err = err.decode(errors="replace")
+        if rc == 3:
+            raise MachineryError("harness rejected script %s: %s" % (script_path, err[-500:]))
+        nres, last, keep = _tail_state(trace_path, offset)
+        crashed = last.startswith('{"op":"Crash"')
+        if rc == 0 and not crashed:
+            break
+        crashes += 1
+        errs.append(err[-1500:])
+        with open(trace_path, "r+b") as f:          # drop a partial last line; say why the run ended
+            f.truncate(keep)
+            if not crashed:
+                f.seek(keep)
+                why = "driver ended with %s" % (rc if isinstance(rc, str) else "exit status %d" % rc)
+                m = re.search(r"(ERROR: \w+Sanitizer: [^\n]{0,160})", err)
+                if m:
+                    why += ": " + re.sub(r'[^ -~]|["\\]', " ", m.group(1))
+                f.write((json.dumps({"op": "Crash", "why": why}, separators=(",", ":")) + "\n").encode())
+        if crashes > CRASH_RESTARTS or nres == 0 or "hang" in last or isinstance(rc, str):
+            break       # (a call that does not return costs its whole CPU limit: one per script is enough)
+        # restart after the execution that crashed: it is the nres-th Reset of this chunk
+        seen, nxt = 0, None
+        for i, l in enumerate(chunk):
+            if l.startswith('{"op":"Reset"'):
+                seen += 1
+                if seen == nres + 1:
+                    nxt = i
+                    break
+        if nxt is None:
+            break
+        pos += nxt
+    return crashes, "\n".join(errs)
 
 
 def chunk_by_reset(lines, nchunks):
@@ -64,17 +179,21 @@ class Gen:
     with an armed fuse may have thrown; the harness skips a call whose object does not exist / already
     exists, so a wrong guess costs one script line).  It predicts no results."""
 
-    def __init__(self, rnd):
+    def __init__(self, rnd, aset):
         self.r = rnd
         self.present = [False, False]
+        self.tracked = SETS[aset]["tracked"]
+        self.ntm = SETS[aset]["ntm"]
 
     def fuse(self):
         return self.r.choice([1, 1, 1, 2, 2, 3]) if self.r.random() < 0.3 else 0
 
-    def valued(self):
+    def valued(self, many=True):
         r = self.r
         alt = r.choice([0, 1, 1, 2, 2, 3])
-        ak = "value" if alt == 0 else r.choice(["value", "value", "copy", "move", "ilist"])
+        if alt not in self.tracked:
+            return alt, r.randrange(0, 4), "value"
+        ak = r.choice(["value", "value", "copy", "move", "ilist", "multi"] if many else ["value", "value", "copy", "move"])
         return alt, r.randrange(0, 4), ak
 
     def step(self):
@@ -89,14 +208,14 @@ class Gen:
                     t = r.random()
                     f = self.fuse() if r.random() < 0.5 else 0
                     if t < 0.15:
-                        self.present[k] = True
-                        return begin("CtorDefault", {"k": K}, 0)
+                        self.present[k] = not (f == 1 and 0 in self.tracked)
+                        return begin("CtorDefault", {"k": K}, f)
                     if t < 0.7:
                         alt, val, ak = self.valued()
                         form = r.choice(["conv", "index", "type"])
-                        if ak == "ilist" and form == "conv":
+                        if ak in ("ilist", "multi") and form == "conv":
                             form = "index"
-                        throws = f == 1 and alt != 0 and (ak in ("value", "ilist", "copy") or alt in (2, 3))
+                        throws = f == 1 and alt in self.tracked and (ak != "move" or alt not in self.ntm)
                         self.present[k] = not throws
                         return begin("CtorValue", {"k": K, "alt": alt, "val": val, "ak": ak, "form": form}, f)
                     if self.present[o]:
@@ -107,48 +226,66 @@ class Gen:
             if x < 0.04:
                 self.present[k] = False
                 return begin("Destroy", {"k": K}, 0)
-            if x < 0.20:
+            if x < 0.19:
                 alt, val, ak = self.valued()
                 return begin("Emplace", {"k": K, "alt": alt, "val": val, "ak": ak, "form": r.choice(["index", "type"])}, self.fuse())
-            if x < 0.36:
-                alt, val, ak = self.valued()
-                if ak == "ilist":
-                    ak = "value"
+            if x < 0.34:
+                alt, val, ak = self.valued(many=False)
                 return begin("ConvAssign", {"k": K, "alt": alt, "val": val, "ak": ak}, self.fuse())
-            if x < 0.46 and self.present[o]:
+            if x < 0.44 and self.present[o]:
                 return begin(r.choice(["CopyAssign", "MoveAssign"]), {"k": K, "o": O}, self.fuse())
-            if x < 0.48:
+            if x < 0.46:
                 return begin("CopyAssign", {"k": K, "o": K}, self.fuse())
-            if x < 0.60 and self.present[o]:
+            if x < 0.57 and self.present[o]:
                 return begin("Swap", {"k": K, "o": O, "form": r.choice(["member", "free"])}, self.fuse())
-            if x < 0.62:
+            if x < 0.59:
                 return begin("Swap", {"k": K, "o": K, "form": r.choice(["member", "free"])}, self.fuse())
-            if x < 0.70:
+            if x < 0.66:
                 alt = r.randrange(4)
                 if r.random() < 0.3:
                     return begin("XGet", {"k": K, "alt": alt, "ref": r.choice(["l", "cl", "r", "cr"])})
                 return begin("Get", {"k": K, "alt": alt, "form": r.choice(["index", "type"]), "ref": r.choice(["l", "cl", "r", "cr"])})
-            if x < 0.76:
+            if x < 0.71:
                 return begin("GetIf", {"k": K, "alt": r.randrange(4), "form": r.choice(["index", "type"]), "c": r.randrange(2),
                                        "null": 1 if r.random() < 0.1 else 0})
-            if x < 0.86 and self.present[o]:
+            if x < 0.79 and self.present[o]:
                 return begin("Rel", {"k": K, "o": r.choice([K, O, O]), "rel": r.choice(["eq", "ne", "lt", "gt", "le", "ge"])})
-            if x < 0.97:
+            if x < 0.83 and self.present[o]:
+                return begin("Hash", {"k": K, "o": r.choice([K, O, O])})
+            if x < 0.93:
                 n = r.choice([0, 1, 1, 2, 2, 3, 3])
                 pool = [K] + ([O] if self.present[o] else [])
-                return begin("Visit", {"ks": [r.choice(pool) for _ in range(n)], "c": r.randrange(2)})
-            held = r.choice(["ref", "cref", "other"])
-            return begin("XRef", {"held": held, "want": r.choice(["ref", "cref"]), "ref": r.choice(["l", "cl", "r", "cr"]),
-                                  "list": 3 if held == "cref" else r.choice([2, 3]), "val": r.randrange(0, 9)})
-        return begin("Visit", {"ks": [], "c": 0})
+                a = {"ks": [r.choice(pool) for _ in range(n)], "c": r.randrange(2), "r": 0, "rv": 0}
+                if n in (1, 2):
+                    a["r"], a["rv"] = r.randrange(2), r.randrange(2)
+                return begin("Visit", a)
+            if x < 0.95:
+                return begin("Nest", {"alt": r.randrange(4), "val": r.randrange(0, 4), "mode": r.choice(["copy", "move", "swap", "visit"])}, self.fuse())
+            if x < 0.96:
+                if r.random() < 0.5:
+                    return begin("Up", {"t": r.choice(["overload", "visitret"]), "alt": r.randrange(3), "val": r.randrange(0, 9)})
+                return begin("Mono", {"q": r.choice(["eq", "ne", "lt", "gt", "le", "ge", "hash", "default"])})
+            return begin("XRef", xref_args(r, r.randrange(0, 9)))
+        return begin("Visit", {"ks": [], "c": 0, "r": 0, "rv": 0})
 
 
-def random_script(seed, nexec, nops):
-    rnd = random.Random(seed * 7919 + 5)
+def xref_args(r, val):
+    """A closure-wrapper xget call that compiles (Variant.tla ArgOK)."""
+    lst = r.choice([2, 3, 3, 4])
+    held = r.choice(["ref", "cref", "other"])
+    want = "cref" if lst == 4 else r.choice(["ref", "cref"])
+    w = 1 if want == "ref" and r.random() < 0.4 else 0
+    ref = r.choice(["l", "r"]) if w else r.choice(["l", "cl", "r", "cr"])
+    return {"held": held, "want": want, "ref": ref, "list": lst, "val": val, "w": w}
+
+
+def random_script(seed, nexec, nops, fl="mixed"):
+    rnd = random.Random(seed * 7919 + 5 + sum(map(ord, fl)))
+    aset = FLAVOURS[fl]["set"]
     lines = []
     for _ in range(nexec):
-        g = Gen(rnd)
-        lines.append({"op": "Reset"})
+        g = Gen(rnd, aset)
+        lines.append(reset_line(fl))
         for _ in range(nops):
             lines.append(g.step())
         for k in (1, 2):          # end every execution with both variants destroyed: nothing may stay alive
@@ -169,17 +306,17 @@ def skey(p):
     return json.dumps(p, sort_keys=True)
 
 
-def vary_forms(c, a, rnd):
+def vary_forms(c, a, rnd, tracked):
     """The model checker explores one syntactic form per call; the forms mean the same in the spec."""
     a = dict(a)
     if c == "CtorValue":
         a["form"] = rnd.choice(["conv", "index", "type"])
-        if a["ak"] == "value" and a["alt"] in TRACKED and a["form"] != "conv" and rnd.random() < 0.3:
-            a["ak"] = "ilist"
+        if a["ak"] == "value" and a["alt"] in tracked and a["form"] != "conv" and rnd.random() < 0.4:
+            a["ak"] = rnd.choice(["ilist", "multi"])
     elif c == "Emplace":
         a["form"] = rnd.choice(["index", "type"])
-        if a["ak"] == "value" and a["alt"] in TRACKED and rnd.random() < 0.3:
-            a["ak"] = "ilist"
+        if a["ak"] == "value" and a["alt"] in tracked and rnd.random() < 0.4:
+            a["ak"] = rnd.choice(["ilist", "multi"])
     elif c == "Swap":
         a["form"] = rnd.choice(["member", "free"])
     elif c == "Get":
@@ -194,11 +331,17 @@ def vary_forms(c, a, rnd):
     elif c == "Visit":
         a["c"] = rnd.randrange(2)
     elif c == "XRef":
-        a["ref"] = rnd.choice(["l", "cl", "r", "cr"])
+        a["ref"] = rnd.choice(["l", "r"]) if a.get("w") else rnd.choice(["l", "cl", "r", "cr"])
     return c, a
 
 
-def build_tour(edges, rnd, exec_len=150, limit=None):
+def with_flavour(lines, fl):
+    """The same script for another build flavour: the Reset lines name the flavour (replays need it)."""
+    r = reset_line(fl)
+    return [r if l["op"] == "Reset" else l for l in lines]
+
+
+def build_tour(edges, rnd, tracked, exec_len=150, limit=None):
     """A walk through L2's call graph that takes every transition at least once.  Returns script lines;
     each Begin line carries "e": index of the edge it replays."""
     init = None
@@ -224,7 +367,7 @@ def build_tour(edges, rnd, exec_len=150, limit=None):
 
     def emit(i):
         e = edges[i]
-        c, a = vary_forms(e["c"], e["a"], rnd)
+        c, a = vary_forms(e["c"], e["a"], rnd, tracked)
         lines.append(begin(c, a, e["f"], e=i))
 
     while remaining:
@@ -329,13 +472,13 @@ def begin_lines(execution):
     return out
 
 
-def validate_file(ctx, path, max_restarts=2):
+def validate_file(ctx, path, aset, max_restarts=2):
     """Validate one trace file.  First with the standard's per-operation exception guarantees demanded
     (Strict); if that rejects, the file is validated again from the rejected execution onwards under the
     property statement's own rule, which alone decides violations.
     Returns (events matched, strict-only rejection (event text) or None, list of rejections under the
     property rule: dict(path, execution (lines up to and including the rejected event)))."""
-    r = core.validate_trace(ctx, TRACE_MOD, CFG_STRICT, path, explain=False)
+    r = core.validate_trace(ctx, TRACE_MOD, SETS[aset]["strict"], path, explain=False)
     if r["accepted"]:
         return r["matched"], None, []
     with open(path) as f:
@@ -353,7 +496,7 @@ def validate_file(ctx, path, max_restarts=2):
         cur = "%s.weak%d" % (path, attempt)
         with open(cur, "w") as f:
             f.write("\n".join(rest) + "\n")
-        w = core.validate_trace(ctx, TRACE_MOD, CFG_WEAK, cur, explain=False)
+        w = core.validate_trace(ctx, TRACE_MOD, SETS[aset]["weak"], cur, explain=False)
         matched += w["matched"]
         if attempt == 0 and (w["accepted"] or w["fail_line"] > idx - start):
             strict_only = strict_event          # the property's rule accepts what Strict rejected
@@ -370,14 +513,15 @@ def validate_file(ctx, path, max_restarts=2):
     return matched, strict_only, rejections
 
 
-def rerun_and_validate(ctx, drv, calls, tag):
-    """A rejection is reported only if it repeats: run the calls again, validate under the property's rule."""
+def rerun_and_validate(ctx, calls, tag):
+    """A rejection is reported only if it repeats: run the calls again on the same build flavour of the driver,
+    validate under the property's rule of the flavour's alternative set."""
+    fl = flavour_of(calls)
     d = ctx.sub("recheck")
     sp, tp = os.path.join(d, tag + ".script"), os.path.join(d, tag + ".ndjson")
-    with open(sp, "w") as f:
-        f.write("\n".join(calls) + "\n")
-    run_script(ctx, drv, sp, tp)
-    return core.validate_trace(ctx, TRACE_MOD, CFG_WEAK, tp, explain=True)
+    write_script(sp, calls)
+    run_script(ctx, build_flavour(ctx, fl), sp, tp)
+    return core.validate_trace(ctx, TRACE_MOD, SETS[FLAVOURS[fl]["set"]]["weak"], tp, explain=True)
 
 
 def classify_known(findings, execution):
@@ -390,44 +534,73 @@ def classify_known(findings, execution):
     return None
 
 
-MAX_REPORTED = 3      # violations confirmed (re-run, explained, replay written); further rejections are only counted
+MAX_REPORTED = 4      # violations confirmed (re-run, explained, replay written); further rejections are only counted
 
 
-def validate_all(ctx, drv, traces, findings):
-    with ThreadPoolExecutor(max_workers=max(1, core.NCPU)) as ex:      # one single-worker TLC per trace file
-        results = list(ex.map(lambda p: validate_file(ctx, p), traces))
-    advisories, unreported = 0, 0
+def rejection_kind(execution):
+    """What distinguishes one rejection from another for the purpose of reporting a handful of distinct ones:
+    the rejected event's kind, the call it belongs to and the call's outcome."""
+    try:
+        bad = json.loads(execution[-1])
+    except Exception:
+        return ("?",)
+    call = {}
+    for x in reversed(execution):
+        if '"op":"Begin"' in x:
+            call = json.loads(x)
+            break
+    a = call.get("a", {})
+    return (bad.get("op"), call.get("c"), a.get("ak"), a.get("rel"), a.get("mode"), a.get("q"), (bad.get("res") or {}).get("exc"))
+
+
+def validate_all(ctx, items, findings):
+    """items: (name, flavour, trace path).  One single-worker TLC per trace file."""
+    with ThreadPoolExecutor(max_workers=max(1, core.NCPU)) as ex:
+        results = list(ex.map(lambda it: validate_file(ctx, it[2], FLAVOURS[it[1]]["set"]), items))
+    advisories, unreported, kinds = 0, 0, set()
+    pending = []
     for n, (matched, strict_only, rejections) in enumerate(results):
         ctx.cov["events_validated"] += matched
         if strict_only:
             advisories += 1
             if advisories <= 3:
                 ctx.drift.append("std exception-safety guarantee (Strict rule of Variant.tla) not met while the property's rule is satisfied: "
-                                 "%s of %s" % (strict_only[:300], os.path.basename(traces[n])))
+                                 "%s of %s" % (strict_only[:300], os.path.basename(items[n][2])))
         for j, rj in enumerate(rejections):
-            calls = begin_lines(rj["execution"])
-            bad = rj["execution"][-1]
             key = classify_known(findings, rj["execution"])
             if key:
                 if key not in ctx.known:
                     ctx.known.append(key)
                 continue
-            if len(ctx.violations) >= MAX_REPORTED:
-                unreported += 1
-                continue
-            again = rerun_and_validate(ctx, drv, calls, "t%d-%d" % (n, j))
-            if again["accepted"]:
-                raise MachineryError("non-reproducible rejection in %s (accepted when the calls were run again): %s"
-                                     % (rj["path"], bad[:300]))
-            text = "trace rejected by Variant.tla (L1) at event %d of an execution in %s: %s ; spec state: %s" % (
-                len(rj["execution"]), os.path.basename(rj["path"]), bad[:900], (again.get("expected") or "?")[:1500])
-            ctx.violation(text, replay_lines=calls)
+            pending.append((n, j, rj))
+    # report a handful of DISTINCT rejections first (one per kind), then fill up; the rest is only counted
+    pending.sort(key=lambda t: (len(t[2]["execution"]), t[0], t[1]))
+    chosen, rest = [], []
+    for t in pending:
+        k = rejection_kind(t[2]["execution"])
+        (chosen if k not in kinds else rest).append(t)
+        kinds.add(k)
+    nbefore = len(ctx.violations)        # (violations of the compile-time table are reported besides these)
+    for n, j, rj in (chosen + rest):
+        if len(ctx.violations) - nbefore >= MAX_REPORTED:
+            unreported += 1
+            continue
+        calls = begin_lines(rj["execution"])
+        bad = rj["execution"][-1]
+        again = rerun_and_validate(ctx, calls, "t%d-%d" % (n, j))
+        if again["accepted"]:
+            raise MachineryError("non-reproducible rejection in %s (accepted when the calls were run again): %s"
+                                 % (rj["path"], bad[:300]))
+        text = "[%s] trace rejected by Variant.tla (L1) at event %d of an execution in %s: %s ; spec state: %s" % (
+            flavour_of(calls), len(rj["execution"]), os.path.basename(rj["path"]), bad[:900], (again.get("expected") or "?")[:1500])
+        ctx.violation(text, replay_lines=calls)
     ctx.notes["trace_files_with_strict_only_rejections"] = advisories
+    ctx.notes["rejected_executions"] = len(pending)
+    ctx.notes["distinct_rejection_kinds"] = len(kinds)
     if unreported:
         ctx.notes["further_rejected_executions_not_replayed"] = unreported
         ctx.log("%d further rejected executions (not replayed)" % unreported)
     return results
-
 
 
 L1_DISJUNCTS = ["ECtor(value)", "ECtor(copy|move)", "EDtor", "EAssign(value)", "EAssign(copy|move|self)", "EThrow", "End"]
@@ -456,29 +629,32 @@ def counterexample_calls(out):
 
 
 def replay(ctx, path):
-    """./verif replay C05 <file>: re-run the recorded calls on the current tree and validate against L1."""
-    lines = [l for l in core.read_ndjson(path) if "_meta" not in l and l.get("op") in ("Reset", "Begin")]
-    drv = os.path.join(ctx.work, "variant_driver")
-    core.build(ctx, os.path.join(core.HARNESS, "variant", "driver.cpp"), drv)
+    """./verif replay C05 <file>: re-run the recorded calls on the current tree (same build flavour of the driver,
+    named in the Reset lines) and validate against L1."""
+    raw = core.read_ndjson(path)
+    if any("probe" in l for l in raw):          # a row of the compile-time table
+        return c05_probe.replay(ctx, [l["probe"] for l in raw if "probe" in l], path)
+    lines = [l for l in raw if "_meta" not in l and l.get("op") in ("Reset", "Begin")]
+    fl = flavour_of(lines)
+    drv = build_flavour(ctx, fl)
     sp, tp = os.path.join(ctx.work, "replay.script"), os.path.join(ctx.work, "replay.ndjson")
     write_script(sp, lines)
     run_script(ctx, drv, sp, tp)
-    r = core.validate_trace(ctx, TRACE_MOD, CFG_WEAK, tp)
+    r = core.validate_trace(ctx, TRACE_MOD, SETS[FLAVOURS[fl]["set"]]["weak"], tp)
     if r["accepted"]:
         print("replay accepted: the recorded calls now conform to Variant.tla")
         return 0
     with open(tp) as f:
         tl = [l.rstrip("\n") for l in f if l.strip()]
     print("VIOLATION property=C05 replay=%s" % path)
-    print("  rejected at event %d: %s\n  spec state: %s" % (r["fail_line"] + 1, tl[r["fail_line"]][:600] if r["fail_line"] < len(tl) else "?", r.get("expected")))
+    print("  [%s] rejected at event %d: %s\n  spec state: %s" % (fl, r["fail_line"] + 1, tl[r["fail_line"]][:600] if r["fail_line"] < len(tl) else "?", r.get("expected")))
     return 1
 
 
 def selftest(ctx):
     """./verif selftest C05: the trace spec accepts a recorded execution of the current tree and rejects it,
     at exactly the changed line, when one logged field is corrupted or one event is removed."""
-    drv = os.path.join(ctx.work, "variant_driver")
-    core.build(ctx, os.path.join(core.HARNESS, "variant", "driver.cpp"), drv)
+    drv = build_flavour(ctx, "mixed")
     d = ctx.sub("selftest")
     sp, tp = os.path.join(d, "s.script"), os.path.join(d, "good.ndjson")
     write_script(sp, random_script(ctx.seed, 6, 40))
@@ -526,11 +702,18 @@ def selftest(ctx):
         if x["op"] == "EDtor":
             return "delete"
 
+    def e_crash(x):
+        if x["op"] == "Begin":
+            x.clear()
+            x.update({"op": "Crash", "why": "selftest"})
+            return True
+
     ok = True
     r = core.validate_trace(ctx, TRACE_MOD, CFG_WEAK, tp, explain=False)
     print("recorded trace (%d events): %s" % (len(lines), "accepted" if r["accepted"] else "REJECTED at %d" % (r["fail_line"] + 1)))
     ok &= r["accepted"]
-    for name, edit in (("value", e_val), ("index", e_index), ("exception", e_exc), ("dtor-id", e_dtor), ("removed-dtor", e_remove)):
+    for name, edit in (("value", e_val), ("index", e_index), ("exception", e_exc), ("dtor-id", e_dtor), ("removed-dtor", e_remove),
+                       ("crash-event", e_crash)):
         p, i = variant(name, edit)
         r = core.validate_trace(ctx, TRACE_MOD, CFG_WEAK, p, explain=False)
         good = (not r["accepted"]) and (r["fail_line"] == i or (name == "removed-dtor" and r["fail_line"] >= i))
@@ -540,131 +723,163 @@ def selftest(ctx):
     return 0 if ok else 2
 
 
+STATELESS = ("XRef", "Mono", "Nest", "Up")
+
+
 def run(ctx):
     q = ctx.quick
     findings = core.load_findings("C05")
     rnd = random.Random(ctx.seed)
+    flavours = [fl for fl, f in FLAVOURS.items() if ctx.tier in f["tiers"]]
+    pool = ThreadPoolExecutor(max_workers=6)
+    tlcpool = ThreadPoolExecutor(max_workers=2)     # at most two model-checking runs at a time (memory: ~4 GB heap each)
 
-    # ---- build the harness from the working tree (in the background of the TLC runs)
-    drv = os.path.join(ctx.work, "variant_driver")
-    pool = ThreadPoolExecutor(max_workers=4)
-    fut_build = pool.submit(core.build, ctx, os.path.join(core.HARNESS, "variant", "driver.cpp"), drv)
+    # ---- 0. compile-time contract of the variant types (probe table enumerated by TLC): violations found here are
+    #         reported even if the driver then does not build against the tree
+    fut_probe = pool.submit(c05_probe.run, ctx)
 
-    # ---- 1. L1 alone
-    fut_l1 = pool.submit(core.tlc_model_check, ctx, "VariantMC", "Variant_mc_quick.cfg" if q else "Variant_mc_thorough.cfg",
-                         "L1 theorems under an arbitrary implementation", coverage=not q, workers=max(2, core.NCPU // 2),
-                         timeout=1500)
-    # ---- 2. L2 => L1, and 3. S->C enumeration (same state space: one TLC run checks the refinement and
-    #         writes every call transition through the Emit action constraint)
-    r2 = core.tlc_model_check(ctx, "VariantImpl", "VariantImpl_mc.cfg" if q else "VariantImpl_mc_thorough.cfg",
-                              "L2 (mpark's algorithm, element-operation steps, fault fuse) refines L1", coverage=not q,
-                              workers=max(2, core.NCPU // 2), timeout=1500, heap="6g")
-    l2_cex = []
-    if r2["violated"]:
-        ctx.drift.append("VariantImpl.tla does not refine Variant.tla (%s); see %s" % (r2["violated"], r2["outfile"]))
-        l2_cex = counterexample_calls(r2["out"])
+    # ---- build the harness flavours from the working tree (in the background of the TLC runs)
+    bpool = ThreadPoolExecutor(max_workers=max(1, min(4, core.NCPU // 2)))
+    fut_build = {fl: bpool.submit(build_flavour, ctx, fl) for fl in flavours}
+
+    wt = max(2, core.NCPU // 2)
+
+    # ---- 2. L2 => L1 per alternative set, and 3. S->C enumeration (same state space: one TLC run checks the
+    #         refinement and writes every call transition through the Emit action constraint)
+    def l2(aset):
+        S = SETS[aset]
+        r2 = core.tlc_model_check(ctx, "VariantImpl", S["mc"][0 if q else 1],
+                                  "L2 (mpark's algorithm, element-operation steps, fault fuse) refines L1, set %s" % aset,
+                                  coverage=not q, workers=wt, timeout=1500, heap="4g")
+        cex = []
+        if r2["violated"]:
+            ctx.drift.append("VariantImpl.tla (set %s) does not refine Variant.tla (%s); see %s" % (aset, r2["violated"], r2["outfile"]))
+            cex = counterexample_calls(r2["out"])
+        cov = r2.get("coverage", {})
+        all_edges = emitted(r2["out"])
+        if r2["violated"] or not all_edges:
+            # the refinement run stopped early: enumerate the transitions without checking properties
+            r3 = core.tlc(ctx, "VariantImpl", S["s2c"][0 if q else 1], name="s2c-enumerate-" + aset,
+                          workers=wt, timeout=1500, heap="4g")
+            if r3["violated"]:
+                raise MachineryError("S->C enumeration failed: %s" % r3["outfile"])
+            all_edges = emitted(r3["out"])
+            r3["out"] = ""
+        r2["out"] = ""
+        return cov, cex, all_edges
+
+    fut_l2 = {aset: tlcpool.submit(l2, aset) for aset in SETS}      # (mixed, td, triv: in this order)
+    # ---- 1. L1 alone (after the L2 runs, which the scripts wait for)
+    fut_l1 = [tlcpool.submit(core.tlc_model_check, ctx, "VariantMC", "Variant_mc_quick.cfg" if q else "Variant_mc_thorough.cfg",
+                             "L1 theorems under an arbitrary implementation, set mixed", coverage=not q, workers=wt, timeout=1500)]
     if not q:
-        ctx.notes["l2_action_coverage"] = r2.get("coverage", {})
-    all_edges = emitted(r2["out"])
-    if r2["violated"] or not all_edges:
-        # the refinement run stopped early: enumerate the transitions without checking properties
-        r3 = core.tlc(ctx, "VariantImpl", "VariantImpl_s2c.cfg" if q else "VariantImpl_s2c_thorough.cfg", name="s2c-enumerate",
-                      workers=max(2, core.NCPU // 2), timeout=1500, heap="6g")
-        if r3["violated"]:
-            raise MachineryError("S->C enumeration failed: %s" % r3["outfile"])
-        all_edges = emitted(r3["out"])
-        r3["out"] = ""
-    r2["out"] = ""
-    # TLC's workers print the transitions in no fixed order: sort, so that the tour depends on VERIF_SEED only
-    all_edges.sort(key=lambda e: json.dumps([e["p"], e["c"], e["a"], e["f"]], sort_keys=True))
-    # a fuse beyond the call's last throwing-capable operation never fires: same run as fuse 0
-    edges = [e for e in all_edges if e["f"] == 0 or e["r"] != "none"]
-    # XRef does not depend on the variants' state: keep it in three states only
-    xstates = sorted({skey(e["p"]) for e in edges})[:3]
-    edges = [e for e in edges if e["c"] != "XRef" or skey(e["p"]) in xstates]
-    tour, taken, nav = build_tour(edges, rnd, exec_len=120, limit=None)
-    ctx.notes["s2c_transitions_enumerated"] = len(all_edges)
-    ctx.notes["s2c_transitions_distinct_behaviour"] = len(edges)
-    ctx.notes["s2c_transitions_replayed"] = taken
-    ctx.notes["s2c_navigation_calls"] = nav
-    ctx.notes["s2c_abstract_states"] = len({skey(e["p"]) for e in edges})
-    ctx.log("S->C: %d call transitions enumerated by TLC (%d with distinct behaviour, %d abstract states); tour of %d calls (+%d navigation)"
-            % (len(all_edges), len(edges), ctx.notes["s2c_abstract_states"], taken, nav))
+        fut_l1.append(tlcpool.submit(core.tlc_model_check, ctx, "VariantMC", "Variant_mc_td.cfg",
+                                     "L1 theorems under an arbitrary implementation, set td", workers=wt, timeout=1500))
+    tours, l2cov = {}, {}
+    for aset in SETS:
+        cov, cex, all_edges = fut_l2[aset].result()
+        l2cov[aset] = cov
+        # TLC's workers print the transitions in no fixed order: sort, so that the tour depends on VERIF_SEED only
+        all_edges.sort(key=lambda e: json.dumps([e["p"], e["c"], e["a"], e["f"]], sort_keys=True))
+        # a fuse beyond the call's last throwing-capable operation never fires: same run as fuse 0
+        edges = [e for e in all_edges if e["f"] == 0 or e["r"] != "none"]
+        # stateless probes do not depend on the variants' state: keep them in three states only
+        xstates = sorted({skey(e["p"]) for e in edges})[:3]
+        edges = [e for e in edges if e["c"] not in STATELESS or skey(e["p"]) in xstates]
+        tour, taken, nav = build_tour(edges, random.Random(ctx.seed * 31 + SETS[aset]["cset"]), SETS[aset]["tracked"], exec_len=120)
+        tours[aset] = dict(edges=edges, tour=tour, cex=cex)
+        ctx.notes["s2c_%s" % aset] = {"transitions_enumerated": len(all_edges), "transitions_distinct_behaviour": len(edges),
+                                      "transitions_replayed": taken, "navigation_calls": nav,
+                                      "abstract_states": len({skey(e["p"]) for e in edges}),
+                                      "by_outcome": {k: sum(1 for e in edges if e["r"] == k) for k in ("none", "injected", "bad_variant_access")},
+                                      "by_call": {c: sum(1 for e in edges if e["c"] == c) for c in sorted({e["c"] for e in edges})}}
+        ctx.log("S->C %s: %d call transitions enumerated by TLC (%d with distinct behaviour, %d abstract states); tour of %d calls (+%d navigation)"
+                % (aset, len(all_edges), len(edges), ctx.notes["s2c_%s" % aset]["abstract_states"], taken, nav))
 
-    r1 = fut_l1.result()
-    if r1["violated"]:
-        raise MachineryError("L1 spec Variant.tla violates its own theorem %s (oracle bug), see %s" % (r1["violated"], r1["outfile"]))
-    if not q:
-        cov1 = dict(r1.get("coverage", {}))
-        cov1.update(disjunct_coverage(r1["out"], L1_DISJUNCTS))
-        ctx.notes["l1_action_coverage"] = cov1
-        vac = sorted(k for cov in (cov1, r2.get("coverage", {})) for k, v in cov.items()
-                     if v[1] == 0 and k[0].isupper() and k not in ("TypeOK", "Quiescent", "RelLaws", "RepInv"))
-        ctx.notes["vacuous_actions"] = vac
-    r1["out"] = ""
-    fut_build.result()
-
+    # ---- scripts: (name, flavour, lines)
     scripts = []
-    for i, ch in enumerate(chunk_by_reset(tour, 8 if q else 16)):
-        scripts.append(("s2c-%02d" % i, ch))
-    drv_clang = None
-    if not q:     # thorough: the same tour on a clang++ build of the harness
-        drv_clang = os.path.join(ctx.work, "variant_driver_clang")
-        fut_clang = pool.submit(core.build, ctx, os.path.join(core.HARNESS, "variant", "driver.cpp"), drv_clang, (), True, "clang++")
-        for i, ch in enumerate(chunk_by_reset(tour, 16)):
-            scripts.append(("s2c-clang-%02d" % i, ch))
-    if l2_cex:
-        scripts.append(("l2-counterexample", [{"op": "Reset"}] + l2_cex))
-
+    nch = 6 if q else 12
+    for fl in flavours:
+        aset = FLAVOURS[fl]["set"]
+        t = tours[aset]
+        if FLAVOURS[fl].get("tour", True) is False:
+            continue                                   # (optimisation-level flavours run the random scripts only)
+        for i, ch in enumerate(chunk_by_reset(with_flavour(t["tour"], fl), 2 if aset == "triv" else nch)):
+            scripts.append(("s2c-%s-%02d" % (fl, i), fl, ch))
+        if t["cex"] and fl == aset:
+            scripts.append(("l2-counterexample-" + aset, fl, [reset_line(fl)] + t["cex"]))
     # ---- 4. C->S random scripts
-    nexec, nops = (500, 40) if q else (6000, 80)
-    rlines = random_script(ctx.seed, nexec, nops)
-    ncalls_rnd = sum(1 for l in rlines if l["op"] == "Begin")
-    for i, ch in enumerate(chunk_by_reset(rlines, 8 if q else 32)):
-        scripts.append(("rnd-%02d" % i, ch))
-
+    RANDOM = {"mixed": (500, 40), "td": (300, 40), "triv": (100, 40), "mixed-table": (200, 40)} if q else \
+             {"mixed": (3000, 80), "td": (2000, 80), "triv": (300, 80), "mixed-table": (600, 80), "td-table": (400, 80), "triv-table": (100, 80),
+              "mixed-clang": (600, 80), "td-clang": (400, 80), "triv-clang": (100, 80), "mixed-O2": (600, 80), "mixed-O0": (400, 80)}
+    ncalls_rnd, sample_rnd = 0, None
+    for fl in flavours:
+        nexec, nops = RANDOM.get(fl, (100, 40))
+        rlines = random_script(ctx.seed, nexec, nops, fl)
+        sample_rnd = sample_rnd or rlines
+        ncalls_rnd += sum(1 for l in rlines if l["op"] == "Begin")
+        for i, ch in enumerate(chunk_by_reset(rlines, max(1, min(nch * 2, nexec // (60 if q else 150))))):
+            scripts.append(("rnd-%s-%02d" % (fl, i), fl, ch))
     # ---- probes of open known findings
     for fnd in findings:
         if "probe" in fnd:
-            scripts.append(("probe-" + fnd["id"], fnd["probe"]["script"]))
+            scripts.append(("probe-" + fnd["id"], "mixed", fnd["probe"]["script"]))
+
+    # ---- the driver builds; a driver that does not build against this tree is a machinery error unless the compile-time
+    #      table has already shown why
+    fut_probe.result()
+    drivers = {}
+    try:
+        for fl in flavours:
+            drivers[fl] = fut_build[fl].result()
+    except MachineryError as e:
+        if ctx.violations:
+            ctx.log("the conformance driver does not build against this tree (%s); reporting the violations of the compile-time table" % str(e)[:300])
+            ctx.notes["driver_build"] = "failed: " + str(e)[:1500]
+            pool.shutdown()
+            bpool.shutdown()
+            return finish(ctx, q)
+        raise
 
     # ---- run the harness
     tdir = ctx.sub("traces")
-    traces = []
 
     def one(item):
-        name, lines = item
+        name, fl, lines = item
         sp, tp = os.path.join(tdir, name + ".script"), os.path.join(tdir, name + ".ndjson")
         write_script(sp, lines)
-        run_script(ctx, drv_clang if name.startswith("s2c-clang-") else drv, sp, tp)
-        return tp
-    if drv_clang:
-        fut_clang.result()
-    traces = list(pool.map(one, scripts))
-    ctx.log("harness: %d scripts executed under ASan+LSan" % len(scripts))
-    ctx.cov["traces_validated_against_impl"] = sum(1 for _, ls in scripts for l in ls if l["op"] == "Reset")
-    ctx.sample({"s2c_script": [json.dumps(x) for x in scripts[0][1][:10]]})
-    ctx.sample({"random_script": [json.dumps(x) for x in rlines[:10]]})
+        ncrash, _ = run_script(ctx, drivers[fl], sp, tp)
+        return tp, ncrash
+    with ThreadPoolExecutor(max_workers=max(2, core.NCPU)) as ex:
+        ran = list(ex.map(one, scripts))
+    traces = [t for t, _ in ran]
+    ctx.log("harness: %d scripts executed under ASan+LSan on %d build flavours (%s)" % (len(scripts), len(flavours), ", ".join(flavours)))
+    ctx.cov["traces_validated_against_impl"] = sum(1 for _, _, ls in scripts for l in ls if l["op"] == "Reset")
+    ctx.sample({"s2c_script": [json.dumps(x) for x in scripts[0][2][:10]]})
+    ctx.sample({"random_script": [json.dumps(x) for x in (sample_rnd or [])[:10]]})
 
     # ---- L2 drift: the element events of every replayed transition against L2's prediction
     ndrift, ncmp, ncalls = 0, 0, 0
-    by_call, by_event, seen = {}, {}, {"valueless_states": 0, "throws": 0, "bad_variant_access": 0, "crashes": 0}
-    for (name, _), tp in zip(scripts, traces):
+    by_call, by_event, by_flavour = {}, {}, {}
+    seen = {"valueless_states": 0, "throws": 0, "bad_variant_access": 0, "crashes": sum(n for _, n in ran)}
+    for (name, fl, _), tp in zip(scripts, traces):
         tl = core.read_ndjson(tp)
-        ncalls += sum(1 for l in tl if l.get("op") == "End")
+        nend = sum(1 for l in tl if l.get("op") == "End")
+        ncalls += nend
+        by_flavour[fl] = by_flavour.get(fl, 0) + nend
         for l in tl:                                   # what the recorded executions actually exercised (vacuity)
             op = l.get("op")
             by_event[op] = by_event.get(op, 0) + 1
             if op == "Begin":
-                by_call[l["c"]] = by_call.get(l["c"], 0) + 1
+                key = l["c"] + ("/" + l["a"]["ak"] if l["a"].get("ak") in ("ilist", "multi") else "")
+                by_call[key] = by_call.get(key, 0) + 1
             elif op == "End":
                 seen["valueless_states"] += sum(1 for x in l["st"] if x["p"] and x["index"] == -1)
                 seen["throws"] += l["res"]["exc"] == "injected"
                 seen["bad_variant_access"] += l["res"]["exc"] == "bad_variant_access"
-            elif op == "Crash":
-                seen["crashes"] += 1
         if not name.startswith("s2c-"):
             continue
+        edges = tours[FLAVOURS[fl]["set"]]["edges"]
         for ob in compact_observed(tl):
             if ob.get("e") is None:
                 continue
@@ -673,36 +888,64 @@ def run(ctx):
             if ob["ev"] != e["ev"] or ob.get("r") != e["r"] or ob.get("q") != e["q"]:
                 ndrift += 1
                 if ndrift <= 3:
-                    ctx.drift.append("VariantImpl.tla predicts %s -> %s %s for %s(%s) fuse %d from %s; the code did %s -> %s %s"
-                                     % (e["ev"], e["r"], e["q"], e["c"], e["a"], e["f"], e["p"], ob["ev"], ob.get("r"), ob.get("q")))
+                    ctx.drift.append("[%s] VariantImpl.tla predicts %s -> %s %s for %s(%s) fuse %d from %s; the code did %s -> %s %s"
+                                     % (fl, e["ev"], e["r"], e["q"], e["c"], e["a"], e["f"], e["p"], ob["ev"], ob.get("r"), ob.get("q")))
     ctx.notes["l2_event_sequences_compared"] = ncmp
     ctx.notes["l2_event_sequence_mismatches"] = ndrift
     ctx.notes["calls_executed"] = ncalls
+    ctx.notes["calls_by_flavour"] = by_flavour
     ctx.notes["calls_by_kind"] = by_call
     ctx.notes["events_by_kind"] = by_event
     ctx.notes["outcomes_seen"] = seen
-    ctx.notes["s2c_transitions_by_outcome"] = {k: sum(1 for e in edges if e["r"] == k) for k in ("none", "injected", "bad_variant_access")}
     ctx.notes["random_calls_scripted"] = ncalls_rnd
     with open(traces[0]) as f:
-        ctx.sample({"trace": [next(f).strip()[:400] for _ in range(6)]})
+        ctx.sample({"trace": [l.strip()[:400] for _, l in zip(range(6), f)]})
+
+    for f in fut_l1:
+        r1 = f.result()
+        if r1["violated"]:
+            raise MachineryError("L1 spec Variant.tla violates its own theorem %s (oracle bug), see %s" % (r1["violated"], r1["outfile"]))
+        if not q and r1["cfg"] == "Variant_mc_thorough.cfg":
+            cov1 = dict(r1.get("coverage", {}))
+            cov1.update(disjunct_coverage(r1["out"], L1_DISJUNCTS))
+            ctx.notes["l1_action_coverage"] = cov1
+        r1["out"] = ""
+    if not q:
+        ctx.notes["l2_action_coverage"] = l2cov
+        vac = sorted(set(k for cov in [ctx.notes.get("l1_action_coverage", {})] + [l2cov["mixed"], l2cov["td"]] for k, v in cov.items()
+                         if v[1] == 0 and k[0].isupper() and k not in ("TypeOK", "Quiescent", "RelLaws", "RepInv")))
+        ctx.notes["vacuous_actions"] = vac
 
     ctx.log("L2 drift comparison done (%d calls); validating traces against L1" % ncmp)
     # ---- validate every trace against L1
-    validate_all(ctx, drv, traces, findings)
+    validate_all(ctx, [(n, fl, tp) for (n, fl, _), tp in zip(scripts, traces)], findings)
     ctx.cov["evaluations"] = ctx.cov["events_validated"]
     ctx.log("validated %d events of %d calls in %d traces (%d executions); L2 event sequences compared: %d, mismatches: %d"
             % (ctx.cov["events_validated"], ncalls, len(traces), ctx.cov["traces_validated_against_impl"], ncmp, ndrift))
+    if not ctx.violations and (seen["throws"] == 0 or seen["valueless_states"] == 0):
+        raise MachineryError("vacuous run: no injected throw / no valueless variant was observed")
     pool.shutdown()
+    bpool.shutdown()
+    tlcpool.shutdown()
+    return finish(ctx, q)
 
+
+def finish(ctx, q):
     return core.finish(
         ctx, "model_checking",
         rule="TLC: L2 (mpark's algorithm at element-operation granularity) refines L1 for every reachable state x call x fuse position, "
-             "2 variants x 4 alternatives {int, NT, TM, TM2} x values %s, fuse 0..%d, identities modulo renaming (exhaustive in these bounds, "
-             "any number of calls); L1 alone under an arbitrary implementation (<= 2 element events per call). Every distinct L2 call "
-             "transition is replayed on real xtl::variant objects in a transition tour and validated by TLC against L1; seeded random call "
-             "sequences (fuse probability 0.3) likewise. A case is one event (element event or End with the full projection) checked by TLC."
-             % ("{1}" if q else "{1,2}", 3 if q else 4),
+             "2 variants x 4 alternatives, for the alternative sets mixed {int, NT, TM, TM2} and td {TD, NT, TM, int} (values %s, fuse 0..%d) "
+             "and triv {int, Tv1, Tv2, Tv3} (values {1,2}), identities modulo renaming (exhaustive in these bounds, any number of calls); "
+             "L1 alone under an arbitrary implementation (<= 2 element events per call). Every distinct L2 call transition is replayed on real "
+             "xtl::variant objects in a transition tour on every build flavour of its set (%s) and validated by TLC against L1; seeded random "
+             "call sequences (fuse probability 0.3) likewise. Compile-time contract (noexcept / triviality / converting-constructor overload "
+             "resolution / API signatures) as a TLC-enumerated table of static_asserts. A case is one event (element event or End with the full "
+             "projection) checked by TLC."
+             % ("{1}" if q else "{1,2}", 3 if q else 4, ", ".join(fl for fl, f in FLAVOURS.items() if ctx.tier in f["tiers"])),
         assumptions=["payload types are harness fixtures: a throwing element operation throws before it changes anything; a move leaves MOVED",
                      "the projection is read through the public API (index, valueless_by_exception, holds_alternative, get_if) and the harness's address registry",
-                     "table-based visitation (non-C++14-constexpr compilers), std::hash, variants of variants are not exercised"],
+                     "the table flavour presents __cpp_constexpr as 200704 to select the header's non-C++14-constexpr code with a C++14 compiler",
+                     "not exercised: MPARK_NO_EXCEPTIONS / XTL_NO_EXCEPTIONS builds (no fault sequences exist there), alternatives that are trivially "
+                     "destructible but not trivially copyable (their destruction cannot be observed), more than 4 alternatives (the switch "
+                     "dispatcher's 32-case blocks), MSVC branches of the header"],
         exhaustive=False)
